@@ -61,7 +61,11 @@ func gen(t *rapid.T) Script {
 			"settings_bad", "ping_bad", "push_promise", "continuation_stray", "headers_malformed", "priority_len", "rst_len", "window_update_len", "settings_ack_stray", "goaway_stream"}
 		var k string
 		// a connection-level protocol violation ends the history: at most one, as the last frame
-		if i == n-1 && rapid.Bool().Draw(t, "illegal") {
+		if i == n-1 && rapid.IntRange(0, 5).Draw(t, "stalledError") == 0 {
+			// the connection error is detected while the frame writer is blocked (the client has stopped reading a
+			// large response): the GOAWAY cannot leave yet, and a request that arrives meanwhile must not be served
+			k = "stalled_error"
+		} else if i == n-1 && rapid.Bool().Draw(t, "illegal") {
 			k = rapid.SampledFrom(illegal).Draw(t, "ik")
 		} else {
 			k = rapid.SampledFrom(kinds).Draw(t, "k")
@@ -229,6 +233,9 @@ func exec(t *testing.T, s Script) (viol *vstat.Violation, classes map[string]boo
 				}
 			case "read-body":
 				io.Copy(io.Discard, r.Body)
+			case "big":
+				w.Write(make([]byte, 1<<20)) // more than the connection can buffer: the frame writer blocks if the client does not read
+				return
 			}
 			w.WriteHeader(200)
 		})
@@ -815,6 +822,45 @@ func exec(t *testing.T, s Script) (viol *vstat.Violation, classes map[string]boo
 			case "continuation_stray":
 				ex = connErr("continuation-without-headers", cProtocol)
 				peer.Fr.WriteContinuation(1, true, []byte{0x82})
+			case "stalled_error":
+				if serverOpen() >= int(s.Limit) {
+					continue
+				}
+				peer.Fr.WriteSettings(xhttp2.Setting{ID: xhttp2.SettingInitialWindowSize, Val: 1 << 20})
+				wantSettingsAcks++
+				peer.Fr.WriteWindowUpdate(0, 1<<20)
+				rig.Wait()
+				if v := judge(step+" (windows opened)", legal("settings+window-update")); v != nil {
+					viol = v
+					break
+				}
+				peer.PauseReads()
+				idA := maxID + 2
+				if maxID == 0 {
+					idA = 1
+				}
+				a := &mstream{id: idA, mode: "big", path: fmt.Sprintf("/s/%d/big", idA), wellFormed: true, release: make(chan struct{}), clientEnded: true, decl: -1, accepted: true, mustStart: true}
+				smu.Lock()
+				byPath[a.path] = a
+				smu.Unlock()
+				streams = append(streams, a)
+				maxID = idA
+				writeBlock(idA, peer.Encode(fields(a.path)), true, nil, 0, false)
+				rig.Wait() // the response has filled the connection's buffers; the frame writer is blocked
+				peer.Fr.WriteWindowUpdate(0, 1<<31-1) // pushes the connection window beyond 2^31-1: connection error FLOW_CONTROL_ERROR
+				idB := maxID + 2
+				b := &mstream{id: idB, mode: "finish", path: fmt.Sprintf("/s/%d/after-the-error", idB), wellFormed: true, release: make(chan struct{}), clientEnded: true, decl: -1, noHandler: true, refused: true}
+				smu.Lock()
+				byPath[b.path] = b
+				smu.Unlock()
+				streams = append(streams, b)
+				maxID = idB
+				writeBlock(idB, peer.Encode(fields(b.path)), true, nil, 0, false)
+				peer.Fr.WritePing(false, [8]byte{9})
+				rig.Wait()
+				peer.ResumeReads()
+				classes["connection-error-while-the-frame-writer-is-blocked"] = true
+				ex = connErr("connection-window-overflow", cFlow)
 			case "goaway_stream":
 				ex = connErr("goaway-on-a-stream", cProtocol)
 				peer.Fr.WriteRawFrame(xhttp2.FrameGoAway, 0, 1, []byte{0, 0, 0, 0, 0, 0, 0, 0})
@@ -914,7 +960,7 @@ func names(m map[uint32]bool) []string {
 func TestModel(t *testing.T) {
 	col.Mandatory("concurrency-limit-reached", "continuation", "continuation-interrupted", "illegal-frame", "request-handled", "connection-error", "client-reset", "trailers", "padding-only-data", "malformed:uppercase", "malformed:missing-path",
 		"data-within-content-length", "data-after-padded-data-within-content-length", "data-beyond-content-length",
-		"frame-on-idle-even-stream-below-the-highest-client-stream")
+		"frame-on-idle-even-stream-below-the-highest-client-stream", "connection-error-while-the-frame-writer-is-blocked")
 	vstat.Run(t, vstat.Spec[Script]{Col: col, Quick: 3000, Thorough: 100000, Gen: gen,
 		Exec: func(s Script) *vstat.Violation {
 			v, cl := exec(t, s)
